@@ -38,6 +38,7 @@ LEVEL_TEXT = ("Theorems over a model of the exception path for configuration tre
               "in flat and nested configurations (depth <= 2), device hook or adapter hook, in the initial tick or later, with other updates in "
               "flight, under the synchronous and a delaying bus; the run must finish within a step budget, report the original identity at the "
               "master, stop every top-level component and start no further tick; the model's report is compared with the messages seen.")
+LEVEL_ADDENDUM = 'Session 8: fault enumeration includes system simulations that carry an adapter whose io serves until cancelled.'
 LEVEL_NOTE = "Trusts: Lean kernel; hand-written exception-path model (tied by comparing predicted exception identity / stopped sets with bus messages); asyncio cancellation semantics are exercised, not modelled."
 ASSUMPTIONS = ["the failure is an Exception raised by Device.update or an adapter's after_update"]
 
